@@ -252,7 +252,13 @@ fn update_best_com(
     resolution: f64,
     directed: bool,
 ) {
-    for (nbr_com, wt) in weights2com {
+    // The candidates are scanned in a fixed order, the node's own community first and
+    // then by ascending community id, so that a tie between equally good communities is
+    // not broken by the iteration order of the hash map (which differs from call to call).
+    let own_com = *best_com;
+    let mut candidates: Vec<(usize, f64)> = weights2com.into_iter().collect();
+    candidates.sort_by_key(|(com, _)| (*com != own_com, *com));
+    for (nbr_com, wt) in candidates {
         let gain = match directed {
             true => {
                 wt - resolution
@@ -425,7 +431,12 @@ where
         }
         new_graph.add_node(Node::from_name_and_attributes(i, nodes));
     });
-    graph.get_all_edges().iter().for_each(|e| {
+    // sorted, so that the floating-point sums are accumulated in the same order on every call
+    let edges = graph
+        .get_all_edges()
+        .into_iter()
+        .sorted_by(|a, b| (&a.u, &a.v).cmp(&(&b.u, &b.v)));
+    edges.for_each(|e| {
         let com1 = node2com.get(&e.u).unwrap();
         let com2 = node2com.get(&e.v).unwrap();
         let new_graph_edge_weight = new_graph
@@ -457,7 +468,8 @@ where
     let hm: HashMap<usize, f64> = HashMap::new();
     let empty_hs = HashSet::new();
     let hs = nbrs.get(u).unwrap_or(&empty_hs);
-    hs.iter().fold(hm, |mut acc: HashMap<usize, f64>, v: &T| {
+    // sorted, so that the floating-point sums are accumulated in the same order on every call
+    hs.iter().sorted().fold(hm, |mut acc: HashMap<usize, f64>, v: &T| {
         if u == v {
             return acc;
         }
@@ -482,7 +494,7 @@ fn add_predecessor_weights<T, A>(
     A: Clone + Send + Sync,
 {
     if let Some(hs) = preds.get(u) {
-        for v in hs {
+        for v in hs.iter().sorted() {
             if u == v {
                 continue;
             }
